@@ -12,193 +12,708 @@ import (
 	"golang.org/x/tools/go/packages"
 )
 
+// C20 — the wemu emulators execute ISA semantics.
+//
+// The emulators are one big switch per ISA: one arm per mnemonic, each arm a handful of statements over
+// p.RegX[arg.F], arg.Imm, curPC, p.PC and bus.Read/Write. What an arm computes is visible in its shape: which
+// raw fields it reads, which operator it applies, through which signed/unsigned view and width, what it
+// writes. The rules below compare those facts, extracted from the type-checked AST, with a semantics table
+// per mnemonic (written from the RISC-V unprivileged ISA and the LoongArch reference manual vol. 1), and with
+// the repository's own decoders (which raw fields each instruction format fills).
+
 func init() {
 	f := "internal/native/wemu/riscv64/cpu.go"
+	f32 := "internal/native/wemu/riscv32/cpu.go"
+	la := "internal/native/wemu/loong64/cpu.go"
 	register(&Property{ID: "C20", Run: runC20, Mutants: []Mutant{
-		{Name: "BLT compares unsigned", File: f, Old: "\tcase riscv.ABLT:\n\t\tif int64(p.RegX[arg.Rs1]) < int64(p.RegX[arg.Rs2]) {", New: "\tcase riscv.ABLT:\n\t\tif p.RegX[arg.Rs1] < p.RegX[arg.Rs2] {", Expect: "branch-ordering :: riscv64 BLT"},
+		{Name: "BLT compares unsigned", File: f, Old: "\tcase riscv.ABLT:\n\t\tif RVInt(p.RegX[arg.Rs1]) < RVInt(p.RegX[arg.Rs2]) {", New: "\tcase riscv.ABLT:\n\t\tif p.RegX[arg.Rs1] < p.RegX[arg.Rs2] {", Expect: "branch-ordering :: riscv64 BLT"},
 		{Name: "BNE taken when equal", File: f, Old: "\tcase riscv.ABNE:\n\t\tif p.RegX[arg.Rs1] != p.RegX[arg.Rs2] {", New: "\tcase riscv.ABNE:\n\t\tif p.RegX[arg.Rs1] == p.RegX[arg.Rs2] {", Expect: "branch-ordering :: riscv64 BNE"},
+		{Name: "BGE not taken when equal", File: f, Old: "if RVInt(p.RegX[arg.Rs1]) >= RVInt(p.RegX[arg.Rs2]) {", New: "if RVInt(p.RegX[arg.Rs1]) > RVInt(p.RegX[arg.Rs2]) {", Expect: "branch-ordering :: riscv64 BGE"},
 		{Name: "SUB adds", File: f, Old: "\tcase riscv.ASUB:\n\t\tp.RegX[arg.Rd] = p.RegX[arg.Rs1] - p.RegX[arg.Rs2]", New: "\tcase riscv.ASUB:\n\t\tp.RegX[arg.Rd] = p.RegX[arg.Rs1] + p.RegX[arg.Rs2]", Expect: "alu-operator :: riscv64 SUB"},
 		{Name: "LH zero-extends", File: f, Old: "\t\tp.RegX[arg.Rd] = RVUInt(int16(value))", New: "\t\tp.RegX[arg.Rd] = RVUInt(uint16(value))", Expect: "access-width :: riscv64 LH"},
 		{Name: "SW stores two bytes", File: f, Old: "\tcase riscv.ASW:\n\t\taddr := p.RegX[arg.Rs1] + RVUInt(arg.Imm)\n\t\tvalue := p.RegX[arg.Rs2]\n\t\tif err := bus.Write(uint64(addr), 4, uint64(value)); err != nil {", New: "\tcase riscv.ASW:\n\t\taddr := p.RegX[arg.Rs1] + RVUInt(arg.Imm)\n\t\tvalue := p.RegX[arg.Rs2]\n\t\tif err := bus.Write(uint64(addr), 2, uint64(value)); err != nil {", Expect: "access-width :: riscv64 SW"},
-		{Name: "ADD ignores rs2", File: f, Old: "\tcase riscv.AADD:\n\t\tp.RegX[arg.Rd] = p.RegX[arg.Rs1] + p.RegX[arg.Rs2]", New: "\tcase riscv.AADD:\n\t\tp.RegX[arg.Rd] = p.RegX[arg.Rs1] + p.RegX[arg.Rs1]", Expect: "operand-signature :: riscv64 ADD"},
-		{Name: "JAL forgets the link register", File: f, Old: "\t\tp.RegX[arg.Rd] = p.PC\n\t\t// 然后根据当前指令对应的 PC 计算出跳转地址覆盖当前的 PC", New: "\t\t// 然后根据当前指令对应的 PC 计算出跳转地址覆盖当前的 PC", Expect: "operand-signature :: riscv64 JAL"},
-		{Name: "RV32 copy diverges", File: "internal/native/wemu/riscv32/cpu.go", Old: "\tcase riscv.AXOR:\n\t\tp.RegX[arg.Rd] = p.RegX[arg.Rs1] ^ p.RegX[arg.Rs2]", New: "\tcase riscv.AXOR:\n\t\tp.RegX[arg.Rd] = p.RegX[arg.Rs1] | p.RegX[arg.Rs2]", Expect: "sibling-equality"},
+		{Name: "SB stores rs1", File: f, Old: "\tcase riscv.ASB:\n\t\taddr := p.RegX[arg.Rs1] + RVUInt(arg.Imm)\n\t\tvalue := p.RegX[arg.Rs2]", New: "\tcase riscv.ASB:\n\t\taddr := p.RegX[arg.Rs1] + RVUInt(arg.Imm)\n\t\tvalue := p.RegX[arg.Rs1]", Expect: "riscv64 SB"},
+		{Name: "ADD ignores rs2", File: f, Old: "\tcase riscv.AADD:\n\t\tp.RegX[arg.Rd] = p.RegX[arg.Rs1] + p.RegX[arg.Rs2]", New: "\tcase riscv.AADD:\n\t\tp.RegX[arg.Rd] = p.RegX[arg.Rs1] + p.RegX[arg.Rs1]", Expect: "riscv64 ADD"},
+		{Name: "JAL forgets the link register", File: f, Old: "\t\tp.RegX[arg.Rd] = p.PC\n\t\t// 然后根据当前指令对应的 PC 计算出跳转地址覆盖当前的 PC", New: "\t\t// 然后根据当前指令对应的 PC 计算出跳转地址覆盖当前的 PC", Expect: "riscv64 JAL"},
+		{Name: "JALR writes rd before reading rs1", File: f, Old: "\t\ttarget := p.RegX[arg.Rs1] + RVUInt(arg.Imm)\n\t\t// rd 寄存器保存下一个指令对应的 PC\n\t\tp.RegX[arg.Rd] = p.PC\n\t\t// 然后用跳转地址覆盖当前的 PC\n\t\tp.PC = target", New: "\t\tp.RegX[arg.Rd] = p.PC\n\t\tp.PC = p.RegX[arg.Rs1] + RVUInt(arg.Imm)", Expect: "rd-alias-order :: riscv64 JALR"},
+		{Name: "branch target relative to the advanced pc", File: f, Old: "\tcase riscv.ABEQ:\n\t\tif p.RegX[arg.Rs1] == p.RegX[arg.Rs2] {\n\t\t\tp.PC = curPC + RVUInt(arg.Imm)", New: "\tcase riscv.ABEQ:\n\t\tif p.RegX[arg.Rs1] == p.RegX[arg.Rs2] {\n\t\t\tp.PC = p.PC + RVUInt(arg.Imm)", Expect: "pc-target :: riscv64 BEQ"},
+		{Name: "AUIPC forgets the shift", File: f, Old: "curPC + RVUInt(arg.Imm<<12)", New: "curPC + RVUInt(arg.Imm)", Expect: "upper-immediate :: riscv64 AUIPC"},
+		{Name: "SRA shifts the unsigned view", File: f, Old: "RVUInt(RVInt(p.RegX[arg.Rs1]) >> (p.RegX[arg.Rs2] & (XLen - 1)))", New: "RVUInt(p.RegX[arg.Rs1] >> (p.RegX[arg.Rs2] & (XLen - 1)))", Expect: "alu-operator :: riscv64 SRA"},
+		{Name: "SLL does not mask the shift amount", File: f, Old: "p.RegX[arg.Rs1] << (p.RegX[arg.Rs2] & (XLen - 1))", New: "p.RegX[arg.Rs1] << p.RegX[arg.Rs2]", Expect: "shift-amount :: riscv64 SLL"},
+		{Name: "ADDW result zero-extended", File: f, Old: "RVUInt(int32(p.RegX[arg.Rs1]) + int32(p.RegX[arg.Rs2]))", New: "RVUInt(uint32(p.RegX[arg.Rs1]) + uint32(p.RegX[arg.Rs2]))", Expect: "word-result :: riscv64 ADDW"},
+		{Name: "DIVW guard looks at the full register", File: f, Old: "\tcase riscv.ADIVW:\n\t\tif uint32(p.RegX[arg.Rs2]) != 0 {", New: "\tcase riscv.ADIVW:\n\t\tif p.RegX[arg.Rs2] != 0 {", Expect: "division-guard :: riscv64 DIVW"},
+		{Name: "RV32 signed view through int64", File: f32, Old: "\tcase riscv.ASLT:\n\t\tif RVInt(p.RegX[arg.Rs1]) < RVInt(p.RegX[arg.Rs2]) {", New: "\tcase riscv.ASLT:\n\t\tif int64(p.RegX[arg.Rs1]) < int64(p.RegX[arg.Rs2]) {", Expect: "riscv32 SLT"},
+		{Name: "RV32 copy diverges", File: f32, Old: "\tcase riscv.AXOR:\n\t\tp.RegX[arg.Rd] = p.RegX[arg.Rs1] ^ p.RegX[arg.Rs2]", New: "\tcase riscv.AXOR:\n\t\tp.RegX[arg.Rd] = p.RegX[arg.Rs1] | p.RegX[arg.Rs2]", Expect: "alu-operator :: riscv32 XOR"},
+		{Name: "LA64 BEQ reads a field its format does not decode", File: la, Old: "if p.RegX[arg.Rs1] == p.RegX[arg.Rd] {", New: "if p.RegX[arg.Rs1] == p.RegX[arg.Rs2] {", Expect: "decoded-fields :: loong64 BEQ"},
+		{Name: "LA64 ST.W stores a byte", File: la, Old: "if err := bus.Write(uint64(addr), 4, uint64(value)); err != nil {", New: "if err := bus.Write(uint64(addr), 1, uint64(value)); err != nil {", Expect: "access-width :: loong64 ST_W"},
+		{Name: "LA64 SUB.W result zero-extended", File: la, Old: "result := int32(p.RegX[arg.Rs1]) - int32(p.RegX[arg.Rs2])\n\t\t\tp.RegX[arg.Rd] = LAUInt(int64(result))", New: "result := uint32(p.RegX[arg.Rs1]) - uint32(p.RegX[arg.Rs2])\n\t\t\tp.RegX[arg.Rd] = LAUInt(int64(result))", Expect: "word-result :: loong64 SUB_W"},
+		{Name: "LA64 BL links to the branch itself", File: la, Old: "p.RegX[1] = curPC + 4", New: "p.RegX[1] = curPC", Expect: "loong64 BL"},
 	}})
 }
 
-type emuArm struct {
-	As     string
-	Arm    Arm
-	Reads  map[string]bool // arg fields read
-	WrRd   bool
-	WrPC   bool
-	BusRd  []int64
-	BusWr  []int64
-	Unsup  bool
-	Empty  bool
-	Source string
+// ---- semantics tables ----
+
+type emuSpec struct {
+	kind       string      // alu | cmpset | branch | load | store | upper | pcupper | jal | jalr | jump | call | nop | float
+	op         token.Token // alu operator
+	signed     bool        // the operator needs the signed view of its operands (>> / % and signed compares)
+	word       bool        // 32-bit operation whose result is sign-extended to the register width
+	imm        bool        // second operand is the immediate, not a register
+	bytes      int         // load/store width
+	sext       bool        // load sign-extends
+	lt, eq, gt bool        // branch / set truth table over rs1 ? rs2
+	a, b       string      // raw fields of the two register operands ("" = default Rs1 / Rs2)
+	val        string      // raw field of the stored value
+	fmt        string      // instruction format (RISC-V: filled from the assembler's table)
 }
 
-func collectEmuArm(pk *packages.Package, p *Prog, arm Arm) emuArm {
-	info := pk.TypesInfo
-	a := emuArm{Arm: arm, Reads: map[string]bool{}}
-	a.Empty = len(arm.Body) == 0
-	if len(arm.Body) == 1 {
-		if r, ok := arm.Body[0].(*ast.ReturnStmt); ok && len(r.Results) == 1 {
-			if call, ok := r.Results[0].(*ast.CallExpr); ok && types.ExprString(call.Fun) == "fmt.Errorf" {
-				a.Unsup = true
+func alu(op token.Token, signed, word, imm bool) emuSpec {
+	return emuSpec{kind: "alu", op: op, signed: signed, word: word, imm: imm}
+}
+func cmp(kind string, lt, eq, gt, signed, imm bool) emuSpec {
+	return emuSpec{kind: kind, lt: lt, eq: eq, gt: gt, signed: signed, imm: imm}
+}
+
+var rvSpecs = map[string]emuSpec{
+	"LUI": {kind: "upper"}, "AUIPC": {kind: "pcupper"}, "JAL": {kind: "jal"}, "JALR": {kind: "jalr"},
+	"BEQ": cmp("branch", false, true, false, false, false), "BNE": cmp("branch", true, false, true, false, false),
+	"BLT": cmp("branch", true, false, false, true, false), "BGE": cmp("branch", false, true, true, true, false),
+	"BLTU": cmp("branch", true, false, false, false, false), "BGEU": cmp("branch", false, true, true, false, false),
+	"LB": {kind: "load", bytes: 1, sext: true}, "LH": {kind: "load", bytes: 2, sext: true}, "LW": {kind: "load", bytes: 4, sext: true},
+	"LBU": {kind: "load", bytes: 1}, "LHU": {kind: "load", bytes: 2}, "LWU": {kind: "load", bytes: 4}, "LD": {kind: "load", bytes: 8},
+	"SB": {kind: "store", bytes: 1, val: "Rs2"}, "SH": {kind: "store", bytes: 2, val: "Rs2"}, "SW": {kind: "store", bytes: 4, val: "Rs2"}, "SD": {kind: "store", bytes: 8, val: "Rs2"},
+	"ADDI": alu(token.ADD, false, false, true), "XORI": alu(token.XOR, false, false, true), "ORI": alu(token.OR, false, false, true), "ANDI": alu(token.AND, false, false, true),
+	"SLTI": cmp("cmpset", true, false, false, true, true), "SLTIU": cmp("cmpset", true, false, false, false, true),
+	"SLLI": alu(token.SHL, false, false, true), "SRLI": alu(token.SHR, false, false, true), "SRAI": alu(token.SHR, true, false, true),
+	"ADD": alu(token.ADD, false, false, false), "SUB": alu(token.SUB, false, false, false), "XOR": alu(token.XOR, false, false, false), "OR": alu(token.OR, false, false, false), "AND": alu(token.AND, false, false, false),
+	"SLL": alu(token.SHL, false, false, false), "SRL": alu(token.SHR, false, false, false), "SRA": alu(token.SHR, true, false, false),
+	"SLT": cmp("cmpset", true, false, false, true, false), "SLTU": cmp("cmpset", true, false, false, false, false),
+	"FENCE": {kind: "nop"}, "FENCE_I": {kind: "nop"},
+	"ADDIW": alu(token.ADD, false, true, true), "SLLIW": alu(token.SHL, false, true, true), "SRLIW": alu(token.SHR, false, true, true), "SRAIW": alu(token.SHR, true, true, true),
+	"ADDW": alu(token.ADD, false, true, false), "SUBW": alu(token.SUB, false, true, false), "SLLW": alu(token.SHL, false, true, false), "SRLW": alu(token.SHR, false, true, false), "SRAW": alu(token.SHR, true, true, false),
+	"MUL": alu(token.MUL, false, false, false), "DIV": alu(token.QUO, true, false, false), "DIVU": alu(token.QUO, false, false, false), "REM": alu(token.REM, true, false, false), "REMU": alu(token.REM, false, false, false),
+	"MULW": alu(token.MUL, false, true, false), "DIVW": alu(token.QUO, true, true, false), "DIVUW": alu(token.QUO, false, true, false), "REMW": alu(token.REM, true, true, false), "REMUW": alu(token.REM, false, true, false),
+}
+
+// LoongArch: rj is decoded into Rs1, rk into Rs2, rd into Rd. Conditional branches compare rj with rd; stores take the value from rd.
+var laSpecs = map[string]emuSpec{
+	"ADD_D": alu(token.ADD, false, false, false), "SUB_D": alu(token.SUB, false, false, false), "AND": alu(token.AND, false, false, false), "OR": alu(token.OR, false, false, false),
+	"XOR": alu(token.XOR, false, false, false), "MUL_D": alu(token.MUL, false, false, false),
+	"ADD_W": alu(token.ADD, false, true, false), "SUB_W": alu(token.SUB, false, true, false), "MUL_W": alu(token.MUL, false, true, false),
+	"SLT": cmp("cmpset", true, false, false, true, false), "SLTU": cmp("cmpset", true, false, false, false, false),
+	"SLTI": cmp("cmpset", true, false, false, true, true), "SLTUI": cmp("cmpset", true, false, false, false, true),
+	"SLLI_W": alu(token.SHL, false, true, true), "SRLI_W": alu(token.SHR, false, true, true), "SRAI_W": alu(token.SHR, true, true, true),
+	"SLLI_D": alu(token.SHL, false, false, true), "SRLI_D": alu(token.SHR, false, false, true), "SRAI_D": alu(token.SHR, true, false, true),
+	"ADDI_W": alu(token.ADD, false, true, true), "ADDI_D": alu(token.ADD, false, false, true),
+	"ORI": alu(token.OR, false, false, true), "ANDI": alu(token.AND, false, false, true), "XORI": alu(token.XOR, false, false, true),
+	"LD_B": {kind: "load", bytes: 1, sext: true}, "LD_H": {kind: "load", bytes: 2, sext: true}, "LD_W": {kind: "load", bytes: 4, sext: true}, "LD_D": {kind: "load", bytes: 8},
+	"LD_BU": {kind: "load", bytes: 1}, "LD_HU": {kind: "load", bytes: 2}, "LD_WU": {kind: "load", bytes: 4},
+	"ST_B": {kind: "store", bytes: 1, val: "Rd"}, "ST_H": {kind: "store", bytes: 2, val: "Rd"}, "ST_W": {kind: "store", bytes: 4, val: "Rd"}, "ST_D": {kind: "store", bytes: 8, val: "Rd"},
+	"LU12I_W": {kind: "upper"}, "PCADDU12I": {kind: "pcupper"},
+	"BEQ": {kind: "branch", eq: true, b: "Rd"}, "BNE": {kind: "branch", lt: true, gt: true, b: "Rd"},
+	"BLT": {kind: "branch", lt: true, signed: true, b: "Rd"}, "BGE": {kind: "branch", eq: true, gt: true, signed: true, b: "Rd"},
+	"BLTU": {kind: "branch", lt: true, b: "Rd"}, "BGEU": {kind: "branch", eq: true, gt: true, b: "Rd"},
+	"B": {kind: "jump"}, "BL": {kind: "call"},
+	"FADD_S": {kind: "float"}, "FADD_D": {kind: "float"}, "FSUB_S": {kind: "float"}, "FSUB_D": {kind: "float"}, "FMUL_S": {kind: "float"}, "FMUL_D": {kind: "float"}, "FDIV_S": {kind: "float"}, "FDIV_D": {kind: "float"},
+}
+
+// ---- expression views ----
+
+type convStep struct {
+	width  int
+	signed bool
+	name   string
+}
+
+// emuView is an operand seen through its conversions.
+type emuView struct {
+	base  string     // reg:<Field> | imm | curpc | pc | busread | const | expr
+	convs []convStep // outermost first
+	inner ast.Expr   // the expression under the conversions (locals expanded)
+	width int        // width of the innermost expression's own type
+	sign  bool
+}
+
+type emuCtx struct {
+	c      *Ctx
+	p      *Prog
+	pk     *packages.Package
+	info   *types.Info
+	arch   string
+	xlen   int
+	curPC  types.Object              // the local that holds the pc of the executing instruction
+	locals map[types.Object]ast.Expr // single-definition locals of the arm under analysis
+	busRd  map[types.Object]*ast.CallExpr
+}
+
+func (e *emuCtx) isConv(call *ast.CallExpr) bool {
+	if len(call.Args) != 1 {
+		return false
+	}
+	tv, ok := e.info.Types[call.Fun]
+	return ok && tv.IsType()
+}
+
+// strip removes parentheses and conversions, expanding single-definition locals.
+func (e *emuCtx) view(x ast.Expr) emuView {
+	var v emuView
+	for depth := 0; depth < 32; depth++ {
+		x = ast.Unparen(x)
+		if call, ok := x.(*ast.CallExpr); ok && e.isConv(call) {
+			t := e.info.TypeOf(call.Fun)
+			if w, s := typeWidth(t); t != nil {
+				if b, ok := t.Underlying().(*types.Basic); ok && b.Info()&types.IsInteger != 0 {
+					v.convs = append(v.convs, convStep{w, s, types.ExprString(call.Fun)})
+				} else {
+					v.convs = append(v.convs, convStep{0, false, types.ExprString(call.Fun)})
+				}
+			}
+			x = call.Args[0]
+			continue
+		}
+		if id, ok := x.(*ast.Ident); ok {
+			obj := e.info.ObjectOf(id)
+			if def, ok := e.locals[obj]; ok {
+				// the local's own type is a (possibly implicit) step of the chain
+				x = def
+				continue
+			}
+		}
+		break
+	}
+	v.inner = x
+	if t := e.info.TypeOf(x); t != nil {
+		v.width, v.sign = typeWidth(t)
+	}
+	v.base = e.baseOf(x)
+	return v
+}
+
+func (e *emuCtx) regField(x ast.Expr) (string, bool) {
+	ix, ok := ast.Unparen(x).(*ast.IndexExpr)
+	if !ok {
+		return "", false
+	}
+	sel, ok := ast.Unparen(ix.X).(*ast.SelectorExpr)
+	if !ok || sel.Sel.Name != "RegX" {
+		return "", false
+	}
+	if f, ok := e.argField(ix.Index); ok {
+		return f, true
+	}
+	if tv, ok := e.info.Types[ix.Index]; ok && tv.Value != nil {
+		return "#" + tv.Value.ExactString(), true
+	}
+	return "?", true
+}
+
+func (e *emuCtx) argField(x ast.Expr) (string, bool) {
+	sel, ok := ast.Unparen(x).(*ast.SelectorExpr)
+	if !ok {
+		return "", false
+	}
+	if id, ok := sel.X.(*ast.Ident); ok && id.Name == "arg" {
+		if v, ok := e.info.ObjectOf(sel.Sel).(*types.Var); ok && v.IsField() {
+			return sel.Sel.Name, true
+		}
+	}
+	return "", false
+}
+
+func (e *emuCtx) baseOf(x ast.Expr) string {
+	x = ast.Unparen(x)
+	if f, ok := e.regField(x); ok {
+		return "reg:" + f
+	}
+	if f, ok := e.argField(x); ok {
+		if f == "Imm" {
+			return "imm"
+		}
+		return "field:" + f
+	}
+	if tv, ok := e.info.Types[x]; ok && tv.Value != nil {
+		return "const"
+	}
+	switch n := x.(type) {
+	case *ast.Ident:
+		obj := e.info.ObjectOf(n)
+		if obj != nil && obj == e.curPC {
+			return "curpc"
+		}
+		if _, ok := e.busRd[obj]; ok {
+			return "busread"
+		}
+	case *ast.SelectorExpr:
+		if n.Sel.Name == "PC" {
+			return "pc"
+		}
+	}
+	return "expr"
+}
+
+func (v emuView) outer() (convStep, bool) {
+	if len(v.convs) == 0 {
+		return convStep{}, false
+	}
+	return v.convs[0], true
+}
+
+// typeChain lists the widths/signedness the value passes through, innermost first.
+func (v emuView) typeChain() []convStep {
+	out := []convStep{{v.width, v.sign, "inner"}}
+	for i := len(v.convs) - 1; i >= 0; i-- {
+		if v.convs[i].width > 0 {
+			out = append(out, v.convs[i])
+		}
+	}
+	return out
+}
+
+// collectLocals records `x := expr` definitions (single assignment) and `value, err := bus.Read(...)`.
+func (e *emuCtx) collectLocals(body []ast.Stmt) {
+	e.locals = map[types.Object]ast.Expr{}
+	e.busRd = map[types.Object]*ast.CallExpr{}
+	count := map[types.Object]int{}
+	for _, s := range body {
+		ast.Inspect(s, func(n ast.Node) bool {
+			as, ok := n.(*ast.AssignStmt)
+			if !ok {
+				return true
+			}
+			for _, l := range as.Lhs {
+				if id, ok := l.(*ast.Ident); ok {
+					count[e.info.ObjectOf(id)]++
+				}
+			}
+			if as.Tok == token.DEFINE && len(as.Lhs) == len(as.Rhs) {
+				for i, l := range as.Lhs {
+					if id, ok := l.(*ast.Ident); ok && id.Name != "_" {
+						e.locals[e.info.ObjectOf(id)] = as.Rhs[i]
+					}
+				}
+			}
+			if as.Tok == token.DEFINE && len(as.Lhs) == 2 && len(as.Rhs) == 1 {
+				if call, ok := as.Rhs[0].(*ast.CallExpr); ok && e.busCall(call) == "Read" {
+					if id, ok := as.Lhs[0].(*ast.Ident); ok {
+						e.busRd[e.info.ObjectOf(id)] = call
+					}
+				}
+			}
+			return true
+		})
+	}
+	for o, n := range count {
+		if n > 1 {
+			delete(e.locals, o)
+		}
+	}
+}
+
+func (e *emuCtx) busCall(call *ast.CallExpr) string {
+	fn := CalleeOf(e.info, call)
+	if fn == nil {
+		return ""
+	}
+	full := FuncFullName(fn)
+	if strings.HasSuffix(full, "wemu/device.Bus.Read") {
+		return "Read"
+	}
+	if strings.HasSuffix(full, "wemu/device.Bus.Write") {
+		return "Write"
+	}
+	return ""
+}
+
+// ---- facts of one arm ----
+
+type emuFacts struct {
+	reads               map[string]bool // arg fields read (any use of arg.F)
+	regReads            map[string]bool // register operands read: p.RegX[arg.F] on a right-hand side / condition
+	rdWrites            []*ast.AssignStmt
+	pcWrites            []*ast.AssignStmt
+	regWrites           map[string][]*ast.AssignStmt
+	busReads, busWrites []*ast.CallExpr
+	unsupported         bool
+}
+
+func (e *emuCtx) facts(body []ast.Stmt) emuFacts {
+	f := emuFacts{reads: map[string]bool{}, regReads: map[string]bool{}, regWrites: map[string][]*ast.AssignStmt{}}
+	if len(body) == 0 {
+		return f
+	}
+	// unsupported: the arm only returns an error or panics
+	if len(body) == 1 {
+		switch s := body[0].(type) {
+		case *ast.ReturnStmt:
+			if len(s.Results) == 1 {
+				if call, ok := s.Results[0].(*ast.CallExpr); ok {
+					if fn := CalleeOf(e.info, call); fn != nil && FuncFullName(fn) == "fmt.Errorf" {
+						f.unsupported = true
+					}
+				}
+			}
+		case *ast.ExprStmt:
+			if call, ok := s.X.(*ast.CallExpr); ok {
+				if id, ok := call.Fun.(*ast.Ident); ok && id.Name == "panic" {
+					f.unsupported = true
+				}
 			}
 		}
 	}
 	lhs := map[ast.Expr]bool{}
-	for _, s := range arm.Body {
+	for _, s := range body {
 		ast.Inspect(s, func(n ast.Node) bool {
-			if as, ok := n.(*ast.AssignStmt); ok {
-				for _, l := range as.Lhs {
+			as, ok := n.(*ast.AssignStmt)
+			if !ok {
+				return true
+			}
+			for _, l := range as.Lhs {
+				l = ast.Unparen(l)
+				if fld, ok := e.regField(l); ok {
 					lhs[l] = true
-					ls := strings.ReplaceAll(types.ExprString(l), " ", "")
-					if ls == "p.RegX[arg.Rd]" {
-						a.WrRd = true
+					f.regWrites[fld] = append(f.regWrites[fld], as)
+					if fld == "Rd" {
+						f.rdWrites = append(f.rdWrites, as)
 					}
-					if ls == "p.PC" {
-						a.WrPC = true
-					}
+				} else if e.baseOf(l) == "pc" {
+					lhs[l] = true
+					f.pcWrites = append(f.pcWrites, as)
 				}
 			}
 			return true
 		})
 	}
-	for _, s := range arm.Body {
+	for _, s := range body {
 		ast.Inspect(s, func(n ast.Node) bool {
 			switch x := n.(type) {
+			case *ast.IndexExpr:
+				if fld, ok := e.regField(x); ok && !lhs[x] {
+					f.regReads[fld] = true
+				}
 			case *ast.SelectorExpr:
-				if types.ExprString(x.X) == "arg" {
-					// arg.Rd used as the index of the destination is a write of the register, not a read of an operand
-					a.Reads[x.Sel.Name] = true
+				if fld, ok := e.argField(x); ok {
+					f.reads[fld] = true
 				}
 			case *ast.CallExpr:
-				fn := types.ExprString(x.Fun)
-				if (fn == "bus.Read" || fn == "bus.Write") && len(x.Args) >= 2 {
-					if tv, ok := info.Types[x.Args[1]]; ok && tv.Value != nil {
-						v, _ := constant.Int64Val(tv.Value)
-						if fn == "bus.Read" {
-							a.BusRd = append(a.BusRd, v)
-						} else {
-							a.BusWr = append(a.BusWr, v)
-						}
-					}
+				switch e.busCall(x) {
+				case "Read":
+					f.busReads = append(f.busReads, x)
+				case "Write":
+					f.busWrites = append(f.busWrites, x)
 				}
 			}
 			return true
 		})
 	}
-	var sb strings.Builder
-	for _, s := range arm.Body {
-		sb.WriteString(nodeString(p, s))
-		sb.WriteString("\n")
-	}
-	a.Source = sb.String()
-	return a
+	return f
 }
 
-// condOrdering evaluates a comparison of "a" (mentions Rs1) with "b" (mentions Rs2 or Imm) for a<b, a==b, a>b.
-func condOrdering(cond ast.Expr) (lt, eq, gt bool, signedView bool, ok bool) {
-	var ev func(e ast.Expr, rel int) (bool, bool)
-	signedBoth := true
-	role := func(e ast.Expr) string {
-		s := types.ExprString(e)
-		switch {
-		case strings.Contains(s, "arg.Rs1"):
-			return "a"
-		case strings.Contains(s, "arg.Rs2"), strings.Contains(s, "arg.Imm"):
-			return "b"
+func (e *emuCtx) constInt(x ast.Expr) (int64, bool) {
+	if tv, ok := e.info.Types[x]; ok && tv.Value != nil && tv.Value.Kind() == constant.Int {
+		v, ok := constant.Int64Val(tv.Value)
+		return v, ok
+	}
+	return 0, false
+}
+
+// coreOp finds the binary operation whose left operand is register a.
+func (e *emuCtx) coreOp(body []ast.Stmt, a string) *ast.BinaryExpr {
+	var found *ast.BinaryExpr
+	for _, s := range body {
+		ast.Inspect(s, func(n ast.Node) bool {
+			be, ok := n.(*ast.BinaryExpr)
+			if !ok || found != nil {
+				return found == nil
+			}
+			switch be.Op {
+			case token.ADD, token.SUB, token.XOR, token.OR, token.AND, token.SHL, token.SHR, token.MUL, token.QUO, token.REM:
+				if e.view(be.X).base == "reg:"+a {
+					found = be
+				}
+			}
+			return found == nil
+		})
+	}
+	return found
+}
+
+// ordering evaluates cond for a<b, a==b, a>b where a / b are recognised by base.
+func (e *emuCtx) ordering(cond ast.Expr, aBase, bBase string) (res [3]bool, va, vb emuView, ok bool) {
+	ok = true
+	var ev func(x ast.Expr, rel int) bool
+	ev = func(x ast.Expr, rel int) bool {
+		switch n := ast.Unparen(x).(type) {
+		case *ast.UnaryExpr:
+			if n.Op == token.NOT {
+				return !ev(n.X, rel)
+			}
+		case *ast.BinaryExpr:
+			switch n.Op {
+			case token.LAND:
+				l, r := ev(n.X, rel), ev(n.Y, rel)
+				return l && r
+			case token.LOR:
+				l, r := ev(n.X, rel), ev(n.Y, rel)
+				return l || r
+			case token.LSS, token.GTR, token.LEQ, token.GEQ, token.EQL, token.NEQ:
+				l, r := e.view(n.X), e.view(n.Y)
+				rr := rel
+				switch {
+				case l.base == aBase && r.base == bBase:
+					va, vb = l, r
+				case l.base == bBase && r.base == aBase:
+					va, vb = r, l
+					rr = -rel
+				default:
+					ok = false
+					return false
+				}
+				switch n.Op {
+				case token.LSS:
+					return rr < 0
+				case token.GTR:
+					return rr > 0
+				case token.LEQ:
+					return rr <= 0
+				case token.GEQ:
+					return rr >= 0
+				case token.EQL:
+					return rr == 0
+				case token.NEQ:
+					return rr != 0
+				}
+			}
+		}
+		ok = false
+		return false
+	}
+	res[0], res[1], res[2] = ev(cond, -1), ev(cond, 0), ev(cond, 1)
+	return
+}
+
+// viewProblem checks that an operand is seen through the view the operation needs.
+func (e *emuCtx) viewProblem(v emuView, signed bool, width int, what string) string {
+	o, has := v.outer()
+	if v.base == "imm" || v.base == "const" {
+		// the immediate is a sign-extended int32; converting it to a narrower type would truncate it
+		if has && o.width > 0 && o.width < 32 {
+			return what + " immediate narrowed to " + o.name
+		}
+		if signed && has && !o.signed {
+			return what + " immediate is compared/used through the unsigned " + o.name + " in a signed operation"
 		}
 		return ""
 	}
-	isSignedConv := func(e ast.Expr) bool {
-		if call, ok := ast.Unparen(e).(*ast.CallExpr); ok {
-			switch types.ExprString(call.Fun) {
-			case "int64", "int32", "int":
-				return true
-			}
-		}
-		return false
+	w, s := v.width, v.sign
+	if has && o.width > 0 {
+		w, s = o.width, o.signed
 	}
-	ev = func(e ast.Expr, rel int) (bool, bool) { // rel: -1 a<b, 0 a==b, 1 a>b
-		switch x := ast.Unparen(e).(type) {
-		case *ast.UnaryExpr:
-			if x.Op == token.NOT {
-				v, ok := ev(x.X, rel)
-				return !v, ok
-			}
-		case *ast.BinaryExpr:
-			switch x.Op {
-			case token.LAND:
-				l, ok1 := ev(x.X, rel)
-				r, ok2 := ev(x.Y, rel)
-				return l && r, ok1 && ok2
-			case token.LOR:
-				l, ok1 := ev(x.X, rel)
-				r, ok2 := ev(x.Y, rel)
-				return l || r, ok1 && ok2
-			case token.LSS, token.GTR, token.LEQ, token.GEQ, token.EQL, token.NEQ:
-				l, r := role(x.X), role(x.Y)
-				if l == "" || r == "" || l == r {
-					return false, false
-				}
-				if !(isSignedConv(x.X) && isSignedConv(x.Y)) {
-					signedBoth = false
-				}
-				rr := rel
-				if l == "b" {
-					rr = -rel
-				}
-				switch x.Op {
-				case token.LSS:
-					return rr < 0, true
-				case token.GTR:
-					return rr > 0, true
-				case token.LEQ:
-					return rr <= 0, true
-				case token.GEQ:
-					return rr >= 0, true
-				case token.EQL:
-					return rr == 0, true
-				case token.NEQ:
-					return rr != 0, true
-				}
-			}
-		}
-		return false, false
+	if s != signed {
+		return fmt.Sprintf("%s is seen as %s (%s); the instruction needs the %s view", what, signName(s), viewName(v), signName(signed))
 	}
-	var o1, o2, o3 bool
-	lt, o1 = ev(cond, -1)
-	eq, o2 = ev(cond, 0)
-	gt, o3 = ev(cond, 1)
-	return lt, eq, gt, signedBoth, o1 && o2 && o3
+	if w != width {
+		if w > v.width && v.width < width && signed {
+			return fmt.Sprintf("%s: %s widens a %d-bit register, which zero-extends instead of giving the signed view", what, viewName(v), v.width)
+		}
+		return fmt.Sprintf("%s is seen through %d bits (%s); the instruction works on %d bits", what, w, viewName(v), width)
+	}
+	// a signed view obtained by widening an unsigned narrower value is a zero-extension
+	ch := v.typeChain()
+	for i := 1; i < len(ch); i++ {
+		if ch[i].width > ch[i-1].width && !ch[i-1].signed && signed {
+			return fmt.Sprintf("%s: %s widens an unsigned %d-bit value, which zero-extends instead of giving the signed view", what, viewName(v), ch[i-1].width)
+		}
+	}
+	return ""
 }
 
+func signName(s bool) string {
+	if s {
+		return "signed"
+	}
+	return "unsigned"
+}
+func viewName(v emuView) string {
+	var s []string
+	for _, c := range v.convs {
+		s = append(s, c.name)
+	}
+	if len(s) == 0 {
+		return "no conversion"
+	}
+	return strings.Join(s, "(") + "(…)"
+}
+
+// signExtendedWord reports whether the value assigned is the sign extension of a 32-bit result.
+func (e *emuCtx) signExtendedWord(rhs ast.Expr) (bool, string) {
+	v := e.view(rhs)
+	if c, ok := e.constInt(v.inner); ok && len(v.convs) >= 0 {
+		if c == int64(int32(c)) {
+			return true, ""
+		}
+		return false, fmt.Sprintf("constant %d is not a sign-extended 32-bit value", c)
+	}
+	ch := v.typeChain()
+	if e.xlen == 32 {
+		return true, ""
+	}
+	saw32 := false
+	for i, st := range ch {
+		if st.width == 32 {
+			saw32 = true
+		}
+		if i > 0 && st.width > ch[i-1].width {
+			if !ch[i-1].signed {
+				return false, fmt.Sprintf("the %d-bit intermediate is widened from an unsigned type (%s): zero-extended, the ISA sign-extends the 32-bit result", ch[i-1].width, viewName(v))
+			}
+			if ch[i-1].width != 32 {
+				return false, fmt.Sprintf("widened from %d bits, not from the 32-bit result", ch[i-1].width)
+			}
+		}
+	}
+	if !saw32 {
+		return false, "the result never passes through a 32-bit type (" + viewName(v) + "): the upper half is not the sign extension of bit 31"
+	}
+	return true, ""
+}
+
+// ---- decoder: which raw fields does each instruction format fill ----
+
+func decoderFieldsRV(pk *packages.Package) map[string]map[string]bool {
+	out := map[string]map[string]bool{}
+	for _, F := range []string{"R", "R4", "I", "S", "B", "U", "J"} {
+		fd := FuncDecl(pk, "_OpcodeType.decode"+F)
+		if fd == nil {
+			continue
+		}
+		out[F] = rawWrites(fd.Body)
+	}
+	return out
+}
+
+func rawWrites(n ast.Node) map[string]bool {
+	m := map[string]bool{}
+	ast.Inspect(n, func(n ast.Node) bool {
+		as, ok := n.(*ast.AssignStmt)
+		if !ok {
+			return true
+		}
+		for _, l := range as.Lhs {
+			if sel, ok := l.(*ast.SelectorExpr); ok {
+				if id, ok := sel.X.(*ast.Ident); ok && id.Name == "argRaw" {
+					m[sel.Sel.Name] = true
+				}
+			}
+		}
+		return true
+	})
+	return m
+}
+
+func decoderFieldsLA(pk *packages.Package) map[string]map[string]bool {
+	out := map[string]map[string]bool{}
+	fd := FuncDecl(pk, "_OpContextType.decodeInst")
+	if fd == nil {
+		return out
+	}
+	for _, sw := range FindSwitches(fd, func(tag ast.Expr) bool { return types.ExprString(tag) == "op.fmt" }) {
+		for _, arm := range SwitchArms(pk.TypesInfo, sw) {
+			m := map[string]bool{}
+			for _, s := range arm.Body {
+				for k := range rawWrites(s) {
+					m[k] = true
+				}
+			}
+			for _, k := range arm.Consts {
+				out[k.Name] = m
+			}
+		}
+	}
+	return out
+}
+
+// upperImmUnshifted: does the decoder hand the emulator the 20-bit field itself (to be shifted left by 12)?
+func upperImmUnshifted(pk *packages.Package, arch string) (bool, bool) {
+	info := pk.TypesInfo
+	var body ast.Node
+	if arch == "loong64" {
+		fd := FuncDecl(pk, "_OpContextType.decodeInst")
+		if fd == nil {
+			return false, false
+		}
+		for _, sw := range FindSwitches(fd, func(tag ast.Expr) bool { return types.ExprString(tag) == "op.fmt" }) {
+			for _, arm := range SwitchArms(info, sw) {
+				for _, k := range arm.Consts {
+					if k.Name == "OpFormatType_1R_si20" {
+						body = arm.Clause
+					}
+				}
+			}
+		}
+	} else if fd := FuncDecl(pk, "_OpcodeType.decodeU"); fd != nil {
+		body = fd.Body
+	}
+	if body == nil {
+		return false, false
+	}
+	// the definition of imm
+	var def ast.Expr
+	ast.Inspect(body, func(n ast.Node) bool {
+		if as, ok := n.(*ast.AssignStmt); ok && as.Tok == token.DEFINE && len(as.Lhs) == 1 && len(as.Rhs) == 1 {
+			if id, ok := as.Lhs[0].(*ast.Ident); ok && id.Name == "imm" && def == nil {
+				def = as.Rhs[0]
+			}
+		}
+		return true
+	})
+	if def == nil {
+		return false, false
+	}
+	s := strings.ReplaceAll(types.ExprString(def), " ", "")
+	switch s {
+	case "int32(x>>12)", "simm(x,5,20)":
+		return true, true
+	}
+	return false, false
+}
+
+// ---- the check ----
+
 func runC20(c *Ctx) {
-	c.Explain = "Decides table clauses of the wemu RISC-V emulator's execInst (riscv64 and its riscv32 copy): (1) operand signature: each implemented arm reads and writes exactly the raw argument fields the mnemonic's instruction format prescribes (R: rs1, rs2 -> rd; I: rs1, imm -> rd; loads read the bus; S: rs1, rs2, imm -> bus write; B: rs1, rs2, imm -> pc; U: imm -> rd; J: imm -> rd, pc); " +
-		"(2) branch / set-less-than conditions have the ordering truth table of the mnemonic (evaluated for a<b, a==b, a>b) in the mnemonic's signedness; (3) ALU arms apply the mnemonic's operator with the right signedness of the operand view; (4) loads and stores transfer the mnemonic's width with the mnemonic's extension; " +
-		"(5) riscv32/cpu.go and riscv64/cpu.go stay identical (the file header demands it). Arms that return an 'unsupport' error are exempt. " +
-		"NOT decided: value-level corner cases (division overflow, shift-amount masking), the memory model, instruction decode (C17), floating point, and the LoongArch emulator (most of its arms are unimplemented; not covered)."
-	c.Trusted = []string{"go/packages, go/types (x/tools v0.29.0)", "RISC-V base ISA semantics table in c20.go"}
-	p := c.Load(LoadOpt{Light: true}, "./internal/native/riscv", "./internal/native/wemu/riscv64", "./internal/native/wemu/riscv32")
+	c.Explain = "Decides table clauses of the wemu emulators' execInst (riscv64, riscv32, loong64), arm by arm from the type-checked source: " +
+		"(1) decoded-fields: an arm reads only raw argument fields that the repository's decoder fills for the instruction's format; (2) operand-signature: it reads and writes the operands the format prescribes (R: rs1, rs2 -> rd; I: rs1, imm -> rd; S: rs1, rs2, imm -> memory; B: rs1, rs2, imm -> pc; U: imm -> rd; J: imm -> rd, pc); " +
+		"(3) branch-ordering: branch and set-less-than conditions have the mnemonic's truth table over (a<b, a==b, a>b), through the signed or unsigned view of the register's own width; (4) alu-operator: the Go operator, the signedness and the width of the operand views are the mnemonic's; (5) shift-amount: register shift amounts are reduced to log2(width) bits; " +
+		"(6) word-result: 32-bit operations store the sign extension of their 32-bit result; (7) access-width: loads and stores address rs1+imm, transfer the mnemonic's width and extend as the mnemonic says; stores take the value from the right register; (8) upper-immediate / pc-target: LUI/AUIPC-style immediates are shifted by 12 and pc-relative values use the pc of the executing instruction; links hold the next pc; " +
+		"(9) rd-alias-order: no source register is read after rd was written (rd may be a source); (10) division-guard: every integer division is guarded by a zero test of the very value it divides by. Arms that return an 'unsupport' error or panic(\"TODO\") are exempt. " +
+		"NOT decided: value-level corner cases beyond these clauses, the memory model and devices, instruction decode (C17), floating point, CSR and privileged behaviour, instructions the emulators do not implement."
+	c.Trusted = []string{"go/packages, go/types (x/tools v0.29.0)", "RISC-V unprivileged ISA and LoongArch vol.1 semantics tables in c20.go"}
+	p := c.Load(LoadOpt{Light: true}, "./internal/native/riscv", "./internal/native/loong64", "./internal/native/wemu/riscv64", "./internal/native/wemu/riscv32", "./internal/native/wemu/loong64")
 	rvp := p.MustPkg("operand-signature", "internal/native/riscv")
-	if rvp == nil {
+	lap := p.MustPkg("operand-signature", "internal/native/loong64")
+	if rvp == nil || lap == nil {
 		return
 	}
 	rows, format := rvTable(c, p, rvp)
-	fmtOf := map[string]string{}
-	opOf := map[string]string{}
+	rvFmt := map[string]string{}
 	for _, r := range rows {
-		fmtOf[r.As] = format[r.Opcode]
-		opOf[r.As] = r.Opcode
+		rvFmt[strings.TrimPrefix(r.As, "A")] = format[r.Opcode]
 	}
-	sources := map[string]string{}
-	for _, arch := range []string{"riscv64", "riscv32"} {
-		pk := p.MustPkg("operand-signature", "internal/native/wemu/"+arch)
+	rvDec := decoderFieldsRV(rvp)
+	laDec := decoderFieldsLA(lap)
+	c.Min("decoded-fields", "riscv decoder formats", len(rvDec), 6)
+	c.Min("decoded-fields", "loong64 decoder formats", len(laDec), 30)
+
+	type archCfg struct {
+		arch, uintName, asmPkg string
+		specs                  map[string]emuSpec
+		min                    int
+	}
+	for _, a := range []archCfg{
+		{"riscv64", "RVUInt", "riscv", rvSpecs, 50},
+		{"riscv32", "RVUInt", "riscv", rvSpecs, 50},
+		{"loong64", "LAUInt", "loong64", laSpecs, 25},
+	} {
+		pk := p.MustPkg("operand-signature", "internal/native/wemu/"+a.arch)
 		if pk == nil {
 			continue
 		}
@@ -206,219 +721,716 @@ func runC20(c *Ctx) {
 		if fd == nil {
 			continue
 		}
-		sources[arch] = nodeString(p, fd)
-		if arch == "riscv32" {
-			continue // decided through sibling equality (rule 5) plus the register-width rule below
+		e := &emuCtx{c: c, p: p, pk: pk, info: pk.TypesInfo, arch: a.arch}
+		if tn, ok := pk.Types.Scope().Lookup(a.uintName).(*types.TypeName); ok {
+			e.xlen, _ = typeWidth(tn.Type())
 		}
-		var sw *ast.SwitchStmt
-		for _, s := range fd.Body.List {
-			if x, ok := s.(*ast.SwitchStmt); ok {
-				sw = x
-			}
-		}
-		if sw == nil {
-			c.Undecided("operand-signature", arch+": switch as", p.Pos(fd.Pos()), "instruction switch not found")
+		if e.xlen != 32 && e.xlen != 64 {
+			c.Undecided("operand-signature", a.arch+": register type "+a.uintName, p.Pos(fd.Pos()), "register width not resolved")
 			continue
 		}
-		nImpl := 0
-		for _, arm := range SwitchArms(pk.TypesInfo, sw) {
-			for _, k := range arm.Consts {
-				as := k.Name
-				F := fmtOf[as]
-				if F == "" {
-					continue
+		// curPC: the local defined from p.PC before the pc is advanced
+		for _, s := range fd.Body.List {
+			if as, ok := s.(*ast.AssignStmt); ok && as.Tok == token.DEFINE && len(as.Lhs) == 1 && len(as.Rhs) == 1 {
+				if e.baseOf(as.Rhs[0]) == "pc" && e.curPC == nil {
+					e.curPC = e.info.ObjectOf(as.Lhs[0].(*ast.Ident))
 				}
-				a := collectEmuArm(pk, p, arm)
-				if a.Unsup {
-					continue
+			}
+		}
+		advanced := false
+		for _, s := range fd.Body.List {
+			if as, ok := s.(*ast.AssignStmt); ok && as.Tok == token.ADD_ASSIGN && len(as.Lhs) == 1 && e.baseOf(as.Lhs[0]) == "pc" {
+				if v, ok := e.constInt(as.Rhs[0]); ok && v == 4 {
+					advanced = true
 				}
-				nImpl++
-				name := strings.TrimPrefix(as, "A")
-				loc := p.Pos(arm.Clause.Pos())
-				key := arch + " " + name
-				// (1) signature
-				var bad []string
-				need := func(cond bool, msg string) {
-					if !cond {
-						bad = append(bad, msg)
-					}
-				}
-				isLoad := opOf[as] == "_OpBase_LOAD" || opOf[as] == "_OpBase_LOAD_FP"
-				switch F {
-				case "R":
-					need(a.Reads["Rs1"] && a.Reads["Rs2"], "must read rs1 and rs2")
-					need(!a.Reads["Imm"], "must not read the immediate (R-type has none)")
-					need(a.WrRd, "must write rd")
-				case "I":
-					if name == "FENCE" || name == "FENCE_I" {
-						break
-					}
-					need(a.Reads["Rs1"] && a.Reads["Imm"], "must read rs1 and the immediate")
-					need(!a.Reads["Rs2"], "must not read rs2 (I-type has none)")
-					need(a.WrRd, "must write rd")
-					if isLoad {
-						need(len(a.BusRd) == 1, "must read memory once")
-					}
-					if name == "JALR" {
-						need(a.WrPC, "must write pc")
-					}
-				case "S":
-					need(a.Reads["Rs1"] && a.Reads["Rs2"] && a.Reads["Imm"], "must read rs1, rs2 and the immediate")
-					need(len(a.BusWr) == 1, "must write memory once")
-					need(!a.WrRd, "must not write rd")
-				case "B":
-					need(a.Reads["Rs1"] && a.Reads["Rs2"] && a.Reads["Imm"], "must read rs1, rs2 and the immediate")
-					need(a.WrPC && !a.WrRd, "must write pc only")
-				case "U":
-					need(a.Reads["Imm"] && a.WrRd, "must write rd from the immediate")
-					need(!a.Reads["Rs1"] && !a.Reads["Rs2"], "must not read source registers")
-				case "J":
-					need(a.Reads["Imm"] && a.WrRd && a.WrPC, "must write rd (link) and pc from the immediate")
-				}
-				c.Check(len(bad) == 0, "operand-signature", key, loc, F+"-type signature", fmt.Sprintf("emulation of %s (%s-type): %s", name, F, strings.Join(bad, "; ")))
+			}
+		}
+		if e.curPC == nil || !advanced {
+			c.Undecided("pc-target", a.arch+": curPC := p.PC; p.PC += 4 prologue", p.Pos(fd.Pos()), "the prologue that saves the executing pc and advances p.PC by 4 was not recognised")
+			continue
+		}
+		upperOK, upperKnown := upperImmUnshifted(map[string]*packages.Package{"riscv": rvp, "loong64": lap}[a.asmPkg], a.arch)
 
-				// (2) orderings
-				wantOrd := map[string][4]bool{ // lt, eq, gt, signed
-					"BEQ": {false, true, false, false}, "BNE": {true, false, true, false},
-					"BLT": {true, false, false, true}, "BGE": {false, true, true, true}, "BLTU": {true, false, false, false}, "BGEU": {false, true, true, false},
-					"SLT": {true, false, false, true}, "SLTU": {true, false, false, false}, "SLTI": {true, false, false, true}, "SLTIU": {true, false, false, false},
-				}
-				if w, ok := wantOrd[name]; ok {
-					var cond ast.Expr
-					for _, s := range arm.Body {
-						if ifs, ok := s.(*ast.IfStmt); ok && cond == nil {
-							cond = ifs.Cond
-						}
+		// enumerate arms: (format, mnemonic, arm)
+		type armRef struct {
+			name, format string
+			arm          Arm
+		}
+		var arms []armRef
+		asSwitchTag := func(tag ast.Expr) bool { return types.ExprString(tag) == "as" }
+		if a.arch == "loong64" {
+			for _, outer := range FindSwitches(fd, func(tag ast.Expr) bool { return strings.Contains(types.ExprString(tag), "AsFormatType") }) {
+				for _, fa := range SwitchArms(e.info, outer) {
+					if len(fa.Consts) != 1 {
+						continue
 					}
-					if cond == nil {
-						c.Fail("branch-ordering", key, loc, "no condition found")
-					} else {
-						lt, eq, gt, sv, ok := condOrdering(cond)
-						if !ok {
-							c.Undecided("branch-ordering", key, loc, "condition is not a comparison of rs1 with rs2/imm: "+types.ExprString(cond))
-						} else {
-							signOK := name == "BEQ" || name == "BNE" || sv == w[3]
-							c.Check(lt == w[0] && eq == w[1] && gt == w[2] && signOK, "branch-ordering", key, loc, fmt.Sprintf("true for (<,=,>) = (%v,%v,%v), signed view %v", lt, eq, gt, sv),
-								fmt.Sprintf("%s is taken/set for (rs1<rs2, rs1==rs2, rs1>rs2) = (%v,%v,%v) on a %s comparison; the ISA says (%v,%v,%v) %s", name, lt, eq, gt, map[bool]string{true: "signed", false: "unsigned"}[sv], w[0], w[1], w[2], map[bool]string{true: "signed", false: "unsigned"}[w[3]]))
-						}
-					}
-				}
-				// (3) ALU operator
-				type alu struct {
-					op     string
-					signed bool // signed view required on the left operand
-					word   bool
-				}
-				wantALU := map[string]alu{
-					"ADD": {"+", false, false}, "SUB": {"-", false, false}, "XOR": {"^", false, false}, "OR": {"|", false, false}, "AND": {"&", false, false},
-					"SLL": {"<<", false, false}, "SRL": {">>", false, false}, "SRA": {">>", true, false},
-					"ADDI": {"+", false, false}, "XORI": {"^", false, false}, "ORI": {"|", false, false}, "ANDI": {"&", false, false},
-					"SLLI": {"<<", false, false}, "SRLI": {">>", false, false}, "SRAI": {">>", true, false},
-					"MUL": {"*", false, false}, "DIV": {"/", true, false}, "DIVU": {"/", false, false}, "REM": {"%", true, false}, "REMU": {"%", false, false},
-					"ADDW": {"+", false, true}, "SUBW": {"-", false, true}, "SLLW": {"<<", false, true}, "SRLW": {">>", false, true}, "SRAW": {">>", true, true},
-					"ADDIW": {"+", false, true}, "SLLIW": {"<<", false, true}, "SRLIW": {">>", false, true}, "SRAIW": {">>", true, true},
-					"MULW": {"*", false, true}, "DIVW": {"/", true, true}, "DIVUW": {"/", false, true}, "REMW": {"%", true, true}, "REMUW": {"%", false, true},
-				}
-				if w, ok := wantALU[name]; ok {
-					// the binary expression whose operands mention Rs1 on the left and Rs2/Imm on the right
-					var found *ast.BinaryExpr
-					for _, s := range arm.Body {
-						ast.Inspect(s, func(n ast.Node) bool {
-							be, ok := n.(*ast.BinaryExpr)
-							if !ok || found != nil {
-								return true
-							}
-							switch be.Op {
-							case token.ADD, token.SUB, token.XOR, token.OR, token.AND, token.SHL, token.SHR, token.MUL, token.QUO, token.REM:
-								l, r := types.ExprString(be.X), types.ExprString(be.Y)
-								if strings.Contains(l, "arg.Rs1") && (strings.Contains(r, "arg.Rs2") || strings.Contains(r, "arg.Imm") || strings.Contains(r, "arg.Rs1")) {
-									found = be
+					for _, s := range fa.Body {
+						if sw, ok := s.(*ast.SwitchStmt); ok && sw.Tag != nil && asSwitchTag(sw.Tag) {
+							for _, arm := range SwitchArms(e.info, sw) {
+								for _, k := range arm.Consts {
+									arms = append(arms, armRef{strings.TrimPrefix(k.Name, "A"), fa.Consts[0].Name, arm})
 								}
 							}
-							return true
-						})
-					}
-					if found == nil {
-						c.Fail("alu-operator", key, loc, "no binary operation of rs1 with rs2/imm found")
-					} else {
-						got := found.Op.String()
-						lsrc := strings.ReplaceAll(types.ExprString(found.X), " ", "")
-						// the left operand's view: outermost conversion applied to the register read
-						leftSigned := strings.HasPrefix(lsrc, "int64(") || strings.HasPrefix(lsrc, "int32(")
-						leftWord := strings.HasPrefix(lsrc, "int32(") || strings.HasPrefix(lsrc, "uint32(")
-						var probs []string
-						if got != w.op {
-							probs = append(probs, fmt.Sprintf("applies %q, the instruction computes %q", got, w.op))
 						}
-						needsView := w.op == ">>" || w.op == "/" || w.op == "%"
-						if needsView && leftSigned != w.signed {
-							probs = append(probs, fmt.Sprintf("left operand is viewed as %s, the instruction needs the %s view", map[bool]string{true: "signed", false: "unsigned"}[leftSigned], map[bool]string{true: "signed", false: "unsigned"}[w.signed]))
-						}
-						if w.word && needsView && !leftWord {
-							probs = append(probs, "the *W instruction must operate on the low 32 bits of rs1")
-						}
-						if !w.word && leftWord {
-							probs = append(probs, "operand narrowed to 32 bits in a full-width instruction")
-						}
-						// register-register forms must take the second operand from rs2
-						if fmtOf[as] == "R" && !strings.Contains(types.ExprString(found.Y), "arg.Rs2") {
-							probs = append(probs, "second operand is "+types.ExprString(found.Y)+", not register rs2")
-						}
-						c.Check(len(probs) == 0, "alu-operator", key, loc, "rs1 "+got+" operand", fmt.Sprintf("emulation of %s: %s", name, strings.Join(probs, "; ")))
 					}
 				}
-				// (4) access width
-				widths := map[string][2]string{"LB": {"1", "int8("}, "LH": {"2", "int16("}, "LW": {"4", "int32("}, "LD": {"8", ""}, "LBU": {"1", ""}, "LHU": {"2", ""}, "LWU": {"4", ""},
-					"SB": {"1", ""}, "SH": {"2", ""}, "SW": {"4", ""}, "SD": {"8", ""}}
-				if w, ok := widths[name]; ok {
-					sizes := a.BusRd
-					if strings.HasPrefix(name, "S") {
-						sizes = a.BusWr
+			}
+		} else {
+			for _, sw := range FindSwitches(fd, asSwitchTag) {
+				for _, arm := range SwitchArms(e.info, sw) {
+					for _, k := range arm.Consts {
+						n := strings.TrimPrefix(k.Name, "A")
+						arms = append(arms, armRef{n, rvFmt[n], arm})
 					}
-					good := len(sizes) == 1 && fmt.Sprint(sizes[0]) == w[0]
-					src := strings.ReplaceAll(a.Source, " ", "")
-					if w[1] != "" {
-						good = good && strings.Contains(src, "RVUInt("+w[1]+"value))")
-					} else if strings.HasPrefix(name, "L") {
-						good = good && strings.Contains(src, "RVUInt(value)")
+				}
+				break
+			}
+		}
+		nImpl, nSpec := 0, 0
+		var unspecified []string
+		for _, ar := range arms {
+			e.collectLocals(ar.arm.Body)
+			f := e.facts(ar.arm.Body)
+			if f.unsupported {
+				continue
+			}
+			if len(ar.arm.Body) == 0 {
+				if sp, ok := a.specs[ar.name]; ok && sp.kind != "nop" {
+					c.Fail("operand-signature", a.arch+" "+ar.name, p.Pos(ar.arm.Clause.Pos()), "the arm for "+ar.name+" is empty: the instruction is accepted and does nothing")
+					nImpl++
+				}
+				continue
+			}
+			nImpl++
+			key := a.arch + " " + ar.name
+			loc := p.Pos(ar.arm.Clause.Pos())
+
+			// (1) decoded fields
+			var dec map[string]bool
+			if a.arch == "loong64" {
+				dec = laDec[ar.format]
+			} else {
+				dec = rvDec[ar.format]
+			}
+			if dec == nil {
+				c.Undecided("decoded-fields", key, loc, "no decoder found for format "+ar.format)
+			} else {
+				var missing []string
+				for fld := range f.reads {
+					if !dec[fld] {
+						missing = append(missing, fld)
 					}
-					c.Check(good, "access-width", key, loc, w[0]+" bytes"+map[bool]string{true: ", sign-extended", false: ""}[w[1] != ""], fmt.Sprintf("%s must transfer %s byte(s)%s; the arm transfers %v", name, w[0], map[bool]string{true: " and sign-extend through " + w[1] + ")", false: " without sign extension"}[w[1] != ""], sizes))
+				}
+				sort.Strings(missing)
+				c.Check(len(missing) == 0, "decoded-fields", key, loc, "reads "+strings.Join(sortedKeys(f.reads), ",")+" ⊆ decoded "+strings.Join(sortedKeys(dec), ","),
+					fmt.Sprintf("emulation of %s reads raw field(s) %s, which the decoder of format %s never fills (they are always 0): decoded fields are %s", ar.name, strings.Join(missing, ","), ar.format, strings.Join(sortedKeys(dec), ",")))
+			}
+
+			sp, ok := a.specs[ar.name]
+			if !ok {
+				unspecified = append(unspecified, ar.name)
+				continue
+			}
+			nSpec++
+			if sp.a == "" {
+				sp.a = "Rs1"
+			}
+			if sp.b == "" {
+				sp.b = "Rs2"
+			}
+			e.checkArm(key, loc, ar.name, ar.format, sp, ar.arm, f, upperOK, upperKnown)
+		}
+		c.Min("operand-signature", a.arch+" implemented arms", nImpl, a.min)
+		c.Min("alu-operator", a.arch+" arms with a semantics row", nSpec, a.min-3)
+		if len(unspecified) > 0 {
+			c.Note("%s: implemented arms without a semantics row (only decoded-fields decided): %s", a.arch, strings.Join(unspecified, " "))
+		}
+	}
+}
+
+func sortedKeys(m map[string]bool) []string {
+	var s []string
+	for k := range m {
+		s = append(s, k)
+	}
+	sort.Strings(s)
+	return s
+}
+
+func (e *emuCtx) checkArm(key, loc, name, format string, sp emuSpec, arm Arm, f emuFacts, upperOK, upperKnown bool) {
+	c := e.c
+	var sig []string
+	need := func(cond bool, msg string) {
+		if !cond {
+			sig = append(sig, msg)
+		}
+	}
+	regA, regB := "reg:"+sp.a, "reg:"+sp.b
+	opWidth := e.xlen
+	if sp.word {
+		opWidth = 32
+	}
+
+	// is the pc written with curPC + imm ?
+	pcTarget := func(as *ast.AssignStmt) string {
+		be, ok := ast.Unparen(as.Rhs[0]).(*ast.BinaryExpr)
+		if !ok || be.Op != token.ADD {
+			return "pc is not assigned <pc of this instruction> + immediate"
+		}
+		l, r := e.view(be.X), e.view(be.Y)
+		if l.base == "imm" {
+			l, r = r, l
+		}
+		if r.base != "imm" {
+			return "the pc offset is not the immediate"
+		}
+		if l.base != "curpc" {
+			return "the target is computed from " + l.base + ", not from the pc of the executing instruction (p.PC was already advanced by 4)"
+		}
+		return ""
+	}
+	linkOK := func(rhs ast.Expr) bool {
+		v := e.view(rhs)
+		if v.base == "pc" {
+			return true // p.PC already holds pc+4
+		}
+		if be, ok := ast.Unparen(v.inner).(*ast.BinaryExpr); ok && be.Op == token.ADD {
+			l, r := e.view(be.X), e.view(be.Y)
+			if k, ok := e.constInt(r.inner); ok && l.base == "curpc" && k == 4 {
+				return true
+			}
+		}
+		return false
+	}
+
+	switch sp.kind {
+	case "nop":
+		need(len(f.rdWrites) == 0 && len(f.pcWrites) == 0, "must have no effect")
+	case "float":
+		// floating point: only the decoded-fields rule applies
+		return
+	case "alu":
+		need(f.regReads[sp.a], "must read register "+sp.a)
+		if sp.imm {
+			need(f.reads["Imm"], "must read the immediate")
+			need(!f.regReads[sp.b] || sp.b == "Rd", "must not read register "+sp.b)
+		} else {
+			need(f.regReads[sp.b], "must read register "+sp.b)
+			need(!f.reads["Imm"], "must not read the immediate")
+		}
+		need(len(f.rdWrites) > 0, "must write rd")
+		need(len(f.pcWrites) == 0, "must not write pc")
+	case "cmpset":
+		need(f.regReads[sp.a], "must read register "+sp.a)
+		if sp.imm {
+			need(f.reads["Imm"], "must read the immediate")
+		} else {
+			need(f.regReads[sp.b], "must read register "+sp.b)
+			need(!f.reads["Imm"], "must not read the immediate")
+		}
+		need(len(f.rdWrites) > 0 && len(f.pcWrites) == 0, "must write rd only")
+	case "branch":
+		need(f.regReads[sp.a] && f.regReads[sp.b] && f.reads["Imm"], "must read registers "+sp.a+", "+sp.b+" and the immediate")
+		need(len(f.pcWrites) > 0 && len(f.regWrites) == 0, "must write pc only")
+	case "load":
+		need(f.regReads["Rs1"] && f.reads["Imm"], "must read rs1 and the immediate")
+		need(len(f.busReads) == 1 && len(f.busWrites) == 0, "must read memory once")
+		need(len(f.rdWrites) > 0, "must write rd")
+	case "store":
+		need(f.regReads["Rs1"] && f.regReads[sp.val] && f.reads["Imm"], "must read rs1, the value register "+sp.val+" and the immediate")
+		need(len(f.busWrites) == 1 && len(f.busReads) == 0, "must write memory once")
+		need(len(f.regWrites) == 0, "must not write a register")
+	case "upper", "pcupper":
+		need(f.reads["Imm"] && len(f.rdWrites) > 0, "must write rd from the immediate")
+		need(len(f.regReads) == 0, "must not read source registers")
+	case "jal":
+		need(f.reads["Imm"] && len(f.rdWrites) > 0 && len(f.pcWrites) > 0, "must write rd (link) and pc from the immediate")
+	case "jalr":
+		need(f.regReads["Rs1"] && f.reads["Imm"] && len(f.rdWrites) > 0 && len(f.pcWrites) > 0, "must read rs1 and the immediate, write rd (link) and pc")
+	case "jump":
+		need(f.reads["Imm"] && len(f.pcWrites) > 0 && len(f.regWrites) == 0, "must write pc only, from the immediate")
+	case "call":
+		need(f.reads["Imm"] && len(f.pcWrites) > 0 && len(f.regWrites["#1"]) > 0, "must write r1 (link) and pc from the immediate")
+	}
+	c.Check(len(sig) == 0, "operand-signature", key, loc, sp.kind+" signature", fmt.Sprintf("emulation of %s (%s): %s", name, sp.kind, strings.Join(sig, "; ")))
+
+	// (9) rd alias order — all kinds
+	if bad := e.readAfterRdWrite(arm.Body); bad != "" {
+		c.Fail("rd-alias-order", key, loc, fmt.Sprintf("emulation of %s reads %s after p.RegX[arg.Rd] was written; when rd names the same register the source is already overwritten", name, bad))
+	} else {
+		c.OK("rd-alias-order", key, loc, "sources read before rd is written")
+	}
+
+	switch sp.kind {
+	case "branch", "cmpset":
+		var cond ast.Expr
+		var ifs *ast.IfStmt
+		for _, s := range arm.Body {
+			if x, ok := s.(*ast.IfStmt); ok && cond == nil {
+				cond, ifs = x.Cond, x
+			}
+		}
+		if cond == nil {
+			c.Undecided("branch-ordering", key, loc, "no condition found")
+			break
+		}
+		bBase := regB
+		if sp.imm {
+			bBase = "imm"
+		}
+		res, va, vb, ok := e.ordering(cond, regA, bBase)
+		if !ok {
+			c.Undecided("branch-ordering", key, loc, "condition is not a comparison of "+regA+" with "+bBase+": "+types.ExprString(cond))
+			break
+		}
+		var probs []string
+		if res != [3]bool{sp.lt, sp.eq, sp.gt} {
+			probs = append(probs, fmt.Sprintf("is true for (a<b, a==b, a>b) = (%v,%v,%v); the ISA says (%v,%v,%v)", res[0], res[1], res[2], sp.lt, sp.eq, sp.gt))
+		}
+		if !(sp.eq && !sp.lt && !sp.gt) && !(!sp.eq && sp.lt && sp.gt) { // ordering comparisons need the right view
+			if m := e.viewProblem(va, sp.signed, e.xlen, "left operand"); m != "" {
+				probs = append(probs, m)
+			}
+			if m := e.viewProblem(vb, sp.signed, e.xlen, "right operand"); m != "" {
+				probs = append(probs, m)
+			}
+		} else {
+			// equality: both sides must be compared at full width
+			for _, v := range []emuView{va, vb} {
+				if o, has := v.outer(); has && o.width > 0 && o.width < e.xlen && v.base != "imm" {
+					probs = append(probs, "equality compares only "+fmt.Sprint(o.width)+" bits")
 				}
 			}
 		}
-		c.Min("operand-signature", arch+" implemented arms", nImpl, 50)
-	}
-	// (5) sibling equality
-	if sources["riscv64"] != "" && sources["riscv32"] != "" {
-		c.Check(sources["riscv64"] == sources["riscv32"], "sibling-equality", "riscv32/cpu.go execInst == riscv64/cpu.go execInst", "", "identical", "the RV32 and RV64 emulators' execInst differ although the file header demands that both versions stay identical: a fix applied to one is missing in the other")
-	}
-	// register-width rule for RV32: a signed view through int64 of a 32-bit register is a zero-extension
-	if pk := p.Pkg("internal/native/wemu/riscv32"); pk != nil {
-		if tn, ok := pk.Types.Scope().Lookup("RVUInt").(*types.TypeName); ok {
-			w, _ := typeWidth(tn.Type())
+		c.Check(len(probs) == 0, "branch-ordering", key, loc, fmt.Sprintf("true for (<,=,>) = %v, %s view", res, signName(sp.signed)), fmt.Sprintf("%s: the condition %s", name, strings.Join(probs, "; ")))
+		if sp.kind == "branch" {
+			// the taken arm sets pc = curPC + imm, and only the taken arm
+			msg := ""
 			n := 0
-			var first token.Pos
-			if fd := FuncDecl(pk, "CPU.execInst"); fd != nil {
-				ast.Inspect(fd.Body, func(nd ast.Node) bool {
-					call, ok := nd.(*ast.CallExpr)
-					if !ok || types.ExprString(call.Fun) != "int64" || len(call.Args) != 1 {
-						return true
+			for _, as := range f.pcWrites {
+				if as.Pos() >= ifs.Body.Pos() && as.End() <= ifs.Body.End() {
+					n++
+					if m := pcTarget(as); m != "" {
+						msg = m
 					}
-					if strings.Contains(types.ExprString(call.Args[0]), "p.RegX[") {
-						if at := pk.TypesInfo.TypeOf(call.Args[0]); at != nil {
-							if aw, _ := typeWidth(at); aw < 64 {
-								n++
-								if first == token.NoPos {
-									first = call.Pos()
-								}
+				} else {
+					msg = "pc is written outside the taken arm"
+				}
+			}
+			if n == 0 && msg == "" {
+				msg = "the taken arm does not write pc"
+			}
+			c.Check(msg == "", "pc-target", key, loc, "taken: pc = pc(this) + imm", name+": "+msg)
+		} else {
+			// set: rd = 1 when true, 0 otherwise
+			okSet := false
+			if ifs.Else != nil {
+				thenV, elseV := e.assignedConst(ifs.Body), int64(-1)
+				if eb, ok := ifs.Else.(*ast.BlockStmt); ok {
+					elseV = e.assignedConst(eb)
+				}
+				okSet = thenV == 1 && elseV == 0
+			}
+			c.Check(okSet, "branch-ordering", key+" result", loc, "rd = 1 / 0", name+": rd must become 1 when the condition holds and 0 otherwise")
+		}
+	case "alu":
+		be := e.coreOp(arm.Body, sp.a)
+		if be == nil {
+			c.Fail("alu-operator", key, loc, "no binary operation with register "+sp.a+" as its left operand found in the emulation of "+name)
+			break
+		}
+		var probs []string
+		if be.Op != sp.op {
+			probs = append(probs, fmt.Sprintf("applies %q, the instruction computes %q", be.Op.String(), sp.op.String()))
+		}
+		l, r := e.view(be.X), e.view(be.Y)
+		isShift := sp.op == token.SHL || sp.op == token.SHR
+		// right operand: the register / immediate (possibly masked, for shifts)
+		rb := r
+		var maskExpr *ast.BinaryExpr
+		if isShift {
+			if m, ok := ast.Unparen(r.inner).(*ast.BinaryExpr); ok && (m.Op == token.AND || m.Op == token.REM) {
+				maskExpr = m
+				rb = e.view(m.X)
+				if rb.base == "const" {
+					rb = e.view(m.Y)
+				}
+			}
+		}
+		wantB := regB
+		if sp.imm {
+			wantB = "imm"
+		}
+		if rb.base != wantB {
+			probs = append(probs, fmt.Sprintf("second operand is %s, the instruction takes %s", describeBase(rb.base), describeBase(wantB)))
+		}
+		needsView := sp.op == token.SHR || sp.op == token.QUO || sp.op == token.REM
+		if needsView {
+			if m := e.viewProblem(l, sp.signed, opWidth, "left operand"); m != "" {
+				probs = append(probs, m)
+			}
+			if !isShift && !sp.imm {
+				if m := e.viewProblem(r, sp.signed, opWidth, "right operand"); m != "" {
+					probs = append(probs, m)
+				}
+			}
+		} else {
+			for _, v := range []emuView{l, r} {
+				if v.base == "imm" || v.base == "const" {
+					continue
+				}
+				if o, has := v.outer(); has && o.width > 0 && o.width < opWidth && !(isShift && v.base == r.base) {
+					probs = append(probs, fmt.Sprintf("operand narrowed to %d bits (%s) in a %d-bit operation", o.width, viewName(v), opWidth))
+				}
+			}
+		}
+		c.Check(len(probs) == 0, "alu-operator", key, loc, "rs1 "+be.Op.String()+" "+describeBase(wantB)+", "+signName(sp.signed)+" "+fmt.Sprint(opWidth)+"-bit view", fmt.Sprintf("emulation of %s: %s", name, strings.Join(probs, "; ")))
+		// (5) shift amount of register shifts
+		if isShift && !sp.imm {
+			okMask := false
+			detail := "the shift amount is the whole register: the ISA uses only its low " + fmt.Sprint(log2(opWidth)) + " bits (a Go shift by >= the width gives 0 or the sign)"
+			if maskExpr != nil {
+				k, ok1 := e.constInt(maskExpr.Y)
+				if !ok1 {
+					k, ok1 = e.constInt(maskExpr.X)
+				}
+				if ok1 && ((maskExpr.Op == token.AND && k == int64(opWidth-1)) || (maskExpr.Op == token.REM && k == int64(opWidth))) {
+					okMask = true
+				} else if ok1 {
+					detail = fmt.Sprintf("the shift amount is reduced with %s %d; a %d-bit shift uses the low %d bits of the register", maskExpr.Op, k, opWidth, log2(opWidth))
+				}
+			}
+			c.Check(okMask, "shift-amount", key, loc, fmt.Sprintf("amount & %d", opWidth-1), name+": "+detail)
+		}
+		// (6) word result
+		if sp.word {
+			var bad []string
+			for _, as := range f.rdWrites {
+				if ok, why := e.signExtendedWord(as.Rhs[0]); !ok {
+					bad = append(bad, why)
+				}
+			}
+			c.Check(len(bad) == 0, "word-result", key, loc, "rd = sign-extension of the 32-bit result", fmt.Sprintf("emulation of %s: %s", name, strings.Join(bad, "; ")))
+		}
+		// (10) division guard
+		if sp.op == token.QUO || sp.op == token.REM {
+			e.checkDivGuard(key, loc, name, arm.Body)
+		}
+	case "load", "store":
+		var call *ast.CallExpr
+		if sp.kind == "load" && len(f.busReads) == 1 {
+			call = f.busReads[0]
+		}
+		if sp.kind == "store" && len(f.busWrites) == 1 {
+			call = f.busWrites[0]
+		}
+		if call == nil || len(call.Args) < 2 {
+			c.Fail("access-width", key, loc, fmt.Sprintf("%s must transfer %d byte(s); no single memory access found", name, sp.bytes))
+			break
+		}
+		var probs []string
+		// address = rs1 + imm
+		av := e.view(call.Args[0])
+		if be, ok := ast.Unparen(av.inner).(*ast.BinaryExpr); ok && be.Op == token.ADD {
+			l, r := e.view(be.X), e.view(be.Y)
+			if l.base == "imm" {
+				l, r = r, l
+			}
+			if l.base != "reg:Rs1" || r.base != "imm" {
+				probs = append(probs, "the address is not rs1 + immediate")
+			}
+		} else {
+			probs = append(probs, "the address is not rs1 + immediate")
+		}
+		if n, ok := e.constInt(call.Args[1]); !ok || int(n) != sp.bytes {
+			probs = append(probs, fmt.Sprintf("transfers %d byte(s), the instruction transfers %d", n, sp.bytes))
+		}
+		if sp.kind == "store" {
+			if len(call.Args) >= 3 {
+				vv := e.view(call.Args[2])
+				if vv.base != "reg:"+sp.val {
+					probs = append(probs, "stores "+describeBase(vv.base)+", the instruction stores register "+sp.val)
+				}
+			}
+		} else {
+			for _, as := range f.rdWrites {
+				v := e.view(as.Rhs[0])
+				if v.base != "busread" {
+					probs = append(probs, "rd is not assigned the value read")
+					continue
+				}
+				ch := v.typeChain() // [inner(uint64), conv..., regtype]
+				bits := sp.bytes * 8
+				if sp.sext && bits < e.xlen {
+					if len(ch) < 2 || ch[1].width != bits || !ch[1].signed {
+						probs = append(probs, fmt.Sprintf("the value read must first be converted to int%d to be sign-extended (%s)", bits, viewName(v)))
+					} else {
+						for i := 2; i < len(ch); i++ {
+							if ch[i].width > ch[i-1].width && !ch[i-1].signed {
+								probs = append(probs, "the sign-extended value is widened through an unsigned type")
 							}
 						}
 					}
-					return true
-				})
+				} else {
+					for i := 1; i < len(ch); i++ {
+						if ch[i].width < bits && ch[i].width < e.xlen {
+							probs = append(probs, fmt.Sprintf("the value read is narrowed to %d bits", ch[i].width))
+						}
+						if ch[i].signed && ch[i].width < e.xlen {
+							probs = append(probs, fmt.Sprintf("an unsigned load passes through the signed type %s: sign-extended", ch[i].name))
+						}
+					}
+				}
 			}
-			c.Check(n == 0, "signed-view-width", fmt.Sprintf("riscv32: int64(p.RegX[...]) on a %d-bit register", w), p.Pos(first), "signed views use the register's own width", fmt.Sprintf("%d signed views of a %d-bit register go through int64(...), which zero-extends: BLT/BGE/SLT/SRA/DIV/REM treat negative values as large positive ones on RV32", n, w))
+		}
+		c.Check(len(probs) == 0, "access-width", key, loc, fmt.Sprintf("%d byte(s) at rs1+imm%s", sp.bytes, map[bool]string{true: ", sign-extended", false: ""}[sp.sext]), fmt.Sprintf("emulation of %s: %s", name, strings.Join(probs, "; ")))
+	case "upper", "pcupper":
+		if !upperKnown {
+			c.Undecided("upper-immediate", key, loc, "the decoder's 20-bit immediate expression was not recognised; cannot tell whether the emulator must shift it")
+			break
+		}
+		_ = upperOK
+		msg := ""
+		for _, as := range f.rdWrites {
+			shifted := false
+			ast.Inspect(as.Rhs[0], func(n ast.Node) bool {
+				if be, ok := n.(*ast.BinaryExpr); ok && be.Op == token.SHL {
+					if k, ok := e.constInt(be.Y); ok && k == 12 && e.view(be.X).base == "imm" {
+						shifted = true
+					}
+				}
+				return true
+			})
+			if !shifted {
+				msg = "the decoder passes the 20-bit field unshifted; rd must be computed from imm << 12"
+			}
+			v := e.view(as.Rhs[0])
+			if sp.kind == "pcupper" {
+				be, ok := ast.Unparen(v.inner).(*ast.BinaryExpr)
+				if !ok || be.Op != token.ADD || (e.view(be.X).base != "curpc" && e.view(be.Y).base != "curpc") {
+					msg = "rd must be the pc of the executing instruction plus imm << 12"
+				}
+			} else if be, ok := ast.Unparen(v.inner).(*ast.BinaryExpr); ok && be.Op != token.SHL {
+				msg = "rd must be imm << 12 alone"
+			}
+			// the 32-bit value must be sign-extended into a 64-bit register: the shift happens in int32
+			for i, st := range v.typeChain() {
+				if i > 0 && st.width > 32 && v.typeChain()[i-1].width == 32 && !v.typeChain()[i-1].signed {
+					msg = "imm << 12 is widened from an unsigned 32-bit type: not sign-extended"
+				}
+			}
+		}
+		c.Check(msg == "", "upper-immediate", key, loc, "imm << 12", name+": "+msg)
+	case "jal", "jalr", "jump", "call":
+		msg := ""
+		for _, as := range f.pcWrites {
+			if sp.kind == "jalr" {
+				v := e.view(as.Rhs[0])
+				be, ok := ast.Unparen(v.inner).(*ast.BinaryExpr)
+				if !ok || be.Op != token.ADD {
+					msg = "pc is not assigned rs1 + immediate"
+				} else {
+					l, r := e.view(be.X), e.view(be.Y)
+					if l.base == "imm" {
+						l, r = r, l
+					}
+					if l.base != "reg:Rs1" || r.base != "imm" {
+						msg = "pc is not assigned rs1 + immediate"
+					}
+				}
+			} else if m := pcTarget(as); m != "" {
+				msg = m
+			}
+		}
+		var links []*ast.AssignStmt
+		if sp.kind == "call" {
+			links = f.regWrites["#1"]
+		} else if sp.kind != "jump" {
+			links = f.rdWrites
+		}
+		for _, as := range links {
+			if !linkOK(as.Rhs[0]) {
+				msg = "the link register must receive the address of the next instruction (pc + 4)"
+			}
+		}
+		c.Check(msg == "", "pc-target", key, loc, "pc and link", name+": "+msg)
+	}
+}
+
+func describeBase(b string) string {
+	switch {
+	case strings.HasPrefix(b, "reg:"):
+		return "register " + strings.TrimPrefix(b, "reg:")
+	case b == "imm":
+		return "the immediate"
+	case b == "curpc":
+		return "the pc of this instruction"
+	case b == "pc":
+		return "p.PC"
+	case strings.HasPrefix(b, "field:"):
+		return "the raw field " + strings.TrimPrefix(b, "field:") + " (a register number, not its value)"
+	}
+	return "an expression (" + b + ")"
+}
+
+func log2(n int) int {
+	k := 0
+	for n > 1 {
+		n >>= 1
+		k++
+	}
+	return k
+}
+
+// assignedConst returns the constant assigned to rd in a block with a single assignment, or -1.
+func (e *emuCtx) assignedConst(b *ast.BlockStmt) int64 {
+	if b == nil || len(b.List) != 1 {
+		return -1
+	}
+	as, ok := b.List[0].(*ast.AssignStmt)
+	if !ok || len(as.Lhs) != 1 || len(as.Rhs) != 1 {
+		return -1
+	}
+	if fld, ok := e.regField(as.Lhs[0]); !ok || fld != "Rd" {
+		return -1
+	}
+	if v, ok := e.constInt(as.Rhs[0]); ok {
+		return v
+	}
+	return -1
+}
+
+// readAfterRdWrite walks the statements in order, path-sensitively for if/else, and reports a register read that follows a write of rd.
+func (e *emuCtx) readAfterRdWrite(body []ast.Stmt) string {
+	bad := ""
+	var readsIn func(n ast.Node, skip map[ast.Expr]bool) []string
+	readsIn = func(n ast.Node, skip map[ast.Expr]bool) []string {
+		var out []string
+		ast.Inspect(n, func(n ast.Node) bool {
+			if ix, ok := n.(*ast.IndexExpr); ok && !skip[ix] {
+				if fld, ok := e.regField(ix); ok && fld != "Rd" && !strings.HasPrefix(fld, "#") {
+					out = append(out, "p.RegX[arg."+fld+"]")
+				}
+			}
+			return true
+		})
+		return out
+	}
+	var walk func(list []ast.Stmt, written bool) bool
+	walk = func(list []ast.Stmt, written bool) bool {
+		for _, s := range list {
+			switch x := s.(type) {
+			case *ast.IfStmt:
+				if x.Init != nil {
+					written = walk([]ast.Stmt{x.Init}, written)
+				}
+				if written {
+					if r := readsIn(x.Cond, nil); len(r) > 0 && bad == "" {
+						bad = r[0]
+					}
+				}
+				w1 := walk(x.Body.List, written)
+				w2 := written
+				switch el := x.Else.(type) {
+				case *ast.BlockStmt:
+					w2 = walk(el.List, written)
+				case *ast.IfStmt:
+					w2 = walk([]ast.Stmt{el}, written)
+				}
+				written = w1 || w2
+			case *ast.BlockStmt:
+				written = walk(x.List, written)
+			case *ast.AssignStmt:
+				skip := map[ast.Expr]bool{}
+				wr := false
+				for _, l := range x.Lhs {
+					if fld, ok := e.regField(l); ok {
+						skip[ast.Unparen(l)] = true
+						if fld == "Rd" {
+							wr = true
+						}
+					}
+				}
+				if written {
+					if r := readsIn(x, skip); len(r) > 0 && bad == "" {
+						bad = r[0]
+					}
+				}
+				if wr {
+					written = true
+				}
+			default:
+				if written {
+					if r := readsIn(s, nil); len(r) > 0 && bad == "" {
+						bad = r[0]
+					}
+				}
+			}
+		}
+		return written
+	}
+	walk(body, false)
+	return bad
+}
+
+// checkDivGuard: every / and % is in the then-branch of an if whose condition tests the divisor's own value for zero.
+func (e *emuCtx) checkDivGuard(key, loc, name string, body []ast.Stmt) {
+	c := e.c
+	var probs []string
+	n := 0
+	var visit func(list []ast.Stmt, guards []emuView)
+	checkExpr := func(x ast.Node, guards []emuView) {
+		ast.Inspect(x, func(nd ast.Node) bool {
+			be, ok := nd.(*ast.BinaryExpr)
+			if !ok || (be.Op != token.QUO && be.Op != token.REM) {
+				return true
+			}
+			if _, isConst := e.constInt(be.Y); isConst {
+				return true
+			}
+			n++
+			d := e.view(be.Y)
+			dw := d.width
+			if o, has := d.outer(); has && o.width > 0 {
+				dw = o.width
+			}
+			okG := false
+			for _, g := range guards {
+				gw := g.width
+				if o, has := g.outer(); has && o.width > 0 {
+					gw = o.width
+				}
+				if g.base == d.base && gw == dw {
+					okG = true
+				}
+			}
+			if !okG {
+				probs = append(probs, fmt.Sprintf("%s divides by %s seen through %d bits, but no enclosing test compares exactly that value with 0: a divisor whose low %d bits are zero passes the guard and the Go division panics", name, describeBase(d.base), dw, dw))
+			}
+			return true
+		})
+	}
+	visit = func(list []ast.Stmt, guards []emuView) {
+		for _, s := range list {
+			if ifs, ok := s.(*ast.IfStmt); ok {
+				g := guards
+				if be, ok := ast.Unparen(ifs.Cond).(*ast.BinaryExpr); ok && be.Op == token.NEQ {
+					if k, ok := e.constInt(be.Y); ok && k == 0 {
+						g = append(append([]emuView{}, guards...), e.view(be.X))
+					}
+				}
+				visit(ifs.Body.List, g)
+				if eb, ok := ifs.Else.(*ast.BlockStmt); ok {
+					visit(eb.List, guards)
+				}
+				continue
+			}
+			checkExpr(s, guards)
 		}
 	}
-	_ = sort.Strings
+	visit(body, nil)
+	if n == 0 {
+		return
+	}
+	c.Check(len(probs) == 0, "division-guard", key, loc, "divisor tested for zero at the width it is divided by", strings.Join(probs, "; "))
 }
